@@ -84,6 +84,23 @@ def handle (op : String) (args : List String) : Option String :=
           let outs ← banditOps (Bandit.Agent.init n alpha eps q0) [] ops
           pure (" ; ".intercalate outs)
       | _ => none
+  | "halton.seq" => do
+      let (k, s, bases) ← run (do let k ← nat; let s ← nat; let b ← list nat; pure (k, s, b)) args
+      if bases.any (· < 2) then none else
+      pure (joinSp ((Halton.halton Float.ofNat k bases s).map fl))
+  | "halton.many" => do
+      let (s, bases, sizes) ← run (do let s ← nat; let b ← list nat; let z ← list nat; pure (s, b, z)) args
+      if bases.any (· < 2) then none else
+      let (bs, s') := Halton.drawMany (Halton.haltonPoint Float.ofNat bases) 1 s sizes
+      pure (" | ".intercalate (bs.map (fun b => joinSp (b.map fl))) ++ s!" | cursor {s'}")
+  | "halton.primes" => do
+      let n ← run nat args
+      pure (joinSp ((Halton.getNPrimes n).map toString))
+  | "rseq.many" => do
+      let (start, idx, alphas, sizes) ← run (do
+        let st ← flt; let i ← nat; let a ← list flt; let z ← list nat; pure (st, i, a, z)) args
+      let (bs, s') := Halton.drawMany (Halton.rPoint Float.ofNat (fun x => x - Float.floor x) start alphas) 0 idx sizes
+      pure (" | ".intercalate (bs.map (fun b => joinSp (b.map fl))) ++ s!" | cursor {s'}")
   | "ss.check" => do
       let (b, p) ← run (do let b ← list (list flt); let p ← list flt; pure (b, p)) args
       match SearchSpace.checkBounds (0.0 : Float) b p with
